@@ -94,8 +94,8 @@ class Check(PropertyCheck):
             "object 2-3 times in a drawn format order (curl/httpie/raw, with repeats) - every export is judged and must leave "
             "the flow's get_state() unchanged. distinct = distinct "
             "request; non-trivial = at least one field contains a character outside shlex's safe set.")
-    budget = {"quick": 500, "thorough": 12000}
-    time_budget = {"quick": 25, "thorough": 500}
+    budget = {"quick": 150, "thorough": 12000}
+    time_budget = {"quick": 12, "thorough": 500}
     fingerprints = ["mitmproxy.addons.export:curl_command", "mitmproxy.addons.export:httpie_command",
                     "mitmproxy.addons.export:request_content_for_console", "mitmproxy.addons.export:pop_headers",
                     "mitmproxy.addons.export:cleanup_request", "mitmproxy.addons.export:raw_request",
@@ -109,7 +109,11 @@ class Check(PropertyCheck):
 
     # ------------------------------------------------------------------ generation
     def generate(self, rng, tier):
-        while True:
+        # the runner evaluates generated cases in batches of 256; a case costs 5-6 process creations (15-30 ms each on the
+        # shared box), so the quick tier draws a fixed 150 cases to stay well under a minute
+        drawn = 0
+        while tier != "quick" or drawn < 150:
+            drawn += 1
             hostile = rng.chance(0.4)
             method = rng.pick(ODD_METHODS) if hostile and rng.chance(0.3) else rng.pick(METHODS)
             host = rng.pick(HOSTS) if hostile else rng.pick(HOSTS[:3])
